@@ -554,6 +554,11 @@ def execute(ctx, spec):
         old.atom_name[:], old.element[:] = "XX", "X"
         old.box = np.array([np.eye(3) * 77.0] * 2, dtype=np.float32)
         f.set_structure(old)
+        # ... and read: every reader call on the earlier content (models, coordinates, a structure)
+        f.get_model_count()
+        f.get_coord(model=2)
+        f.get_structure(model=1)
+        f.get_b_factor()
         ctx.op("file_object_reused")
     hy = spec["hybrid36"]
     ctx.op("set_structure:%s%s" % ("stack" if spec["stack"] else "array", "+hybrid36" if hy else ""))
